@@ -239,7 +239,8 @@ public:
     /// \returns Number of elements removed.
     constexpr auto erase(key_type const& key) noexcept -> size_type
     {
-        if (auto* pos = etl::lower_bound(begin(), end(), key); pos != end()) {
+        auto cmp = key_compare{};
+        if (auto* pos = etl::lower_bound(begin(), end(), key, cmp); pos != end() and not cmp(key, *pos)) {
             erase(pos);
             return 1;
         }
